@@ -114,7 +114,63 @@ def carriers(b):
             pe = b.e_place(st["p"])
             if pe[0] == "field" and pe[2] == "data":
                 collect(b.e_rvalue(r))
+    if returns_words(b):
+        # a helper introduced after the review that builds and returns the words of a vector (`fn words_from(..) -> [I; N]`)
+        collect(b.return_expr())
     return res
+
+
+def returns_words(b):
+    return b.kind in ("Fn", "AssocFn") and is_new_private_helper(b) and bool(VEC_TYPES.match(re.sub(r"'\{erased\} ?", "", b.local_ty(0))))
+
+
+def _splice_returned_words(b, data, loc, out):
+    """`Bvf { data: Self::words_from(src), length }` with words_from a helper introduced after the review: splice the
+    helper's writes to the array it returns in front of the aggregate and return the (renamed) array as the aggregate's
+    data, so that the construction is classified as if the loop were still written in place. None when not applicable."""
+    e = mir.strip_casts(data)
+    if not is_call(e):
+        return None
+    for bb, t, fn in b.iter_calls():
+        h = b.crate.new_helper(fn)
+        if h is None or h is b or not returns_words(h) or h.path in _INLINING or len(t["args"]) != h.arg_count:
+            continue
+        if b.e_call(t) != e:
+            continue
+        ret = h.return_expr()
+        if not (ret[0] == "var" and len(ret) > 2):
+            return None
+        args = [b.e_operand(a) for a in t["args"]]
+        mapping = {("param", h.local_name(i + 1)): args[i] for i in range(h.arg_count)}
+        off_box = []
+
+        def tr(x):
+            if not isinstance(x, tuple):
+                return x
+            return mir.subst_expr(mir.rebase_locals(x, off_box[0], h, b), mapping)
+
+        off_box.append(b.register_foreign((h.key, "ret", repr(sorted(mapping.items(), key=repr))), h, tr))
+        _INLINING.append(h.path)
+        try:
+            hevs = events(h)
+        finally:
+            _INLINING.pop()
+        for ev in hevs:
+            d = {}
+            for k2, v in ev.__dict__.items():
+                if k2 in ("kind", "loc"):
+                    continue
+                if k2 == "args" or (k2 == "value" and isinstance(v, tuple) and v and isinstance(v[0], tuple)):
+                    d[k2] = tuple(tr(x) for x in v)
+                elif isinstance(v, tuple):
+                    d[k2] = tr(v)
+                else:
+                    d[k2] = v
+            ne = Ev(ev.kind, loc, **d)
+            ne.inlined_from = h.key
+            out.append(ne)
+        return tr(ret)
+    return None
 
 
 def storage_target(b, e, carr):
@@ -205,6 +261,9 @@ def events(b):
             names = r["fnames"]
             fs = [b.e_operand(o) for o in r["fs"]]
             dest = pe if p["pr"] else ("var", b.local_name(p["l"]), p["l"])
+            spliced = _splice_returned_words(b, fs[names.index("data")], (bb, i), out)
+            if spliced is not None:
+                fs[names.index("data")] = spliced
             out.append(Ev("agg", (bb, i), adt=r["adt"].split("::")[-1], data=fs[names.index("data")],
                           length=fs[names.index("length")], dest=dest))
             continue
